@@ -6,6 +6,7 @@ import (
 	"fmt"
 	"os"
 
+	"vharness/internal/checks"
 	"vharness/internal/fsmon"
 )
 
@@ -20,6 +21,16 @@ func main() {
 		*tier = "quick"
 	}
 	switch *prop {
+	case "C01":
+		checks.CheckC01(*tier)
+	case "C02":
+		checks.CheckC02(*tier)
+	case "C03":
+		checks.CheckC03(*tier)
+	case "diag":
+		checks.Diag()
+	case "smoke":
+		checks.Smoke()
 	case "C15":
 		fsmon.CheckC15(*tier)
 	case "C16":
